@@ -4,7 +4,7 @@ import random
 
 import streams
 from checks._propcommon import dumps_of, standard_programs
-from common import sub_seed
+from common import sub_seed, size
 
 THEOREMS = ["LNN.C16_leaves_invariant",
             "LNN.C16_reset_restores",
@@ -39,7 +39,7 @@ def oracle(rec):
 
 
 def run(rep, tier, seed):
-    n = 200 if tier == "quick" else 4000
+    n = size(tier, 200, 4000)
     progs = standard_programs(seed, n // 2, "interp", n_ops=(0, 10)) + standard_programs(seed + 982451653, n - n // 2, "given", crossed_p=0.05, n_ops=(0, 10))
     for k, p in enumerate(progs):
         rng = random.Random(sub_seed(seed, "c16", k))
